@@ -52,6 +52,8 @@ fn main() {
         #[cfg(feature = "std")]
         ("rec", "isolation") => block::rec_isolation(&args),
         #[cfg(feature = "std")]
+        ("rec", "mixed") => block::rec_mixed(&args),
+        #[cfg(feature = "std")]
         ("rec", "expiry") => block::rec_expiry(&args),
         #[cfg(feature = "std")]
         ("rec", "script") => block::rec_script(&args),
